@@ -57,8 +57,8 @@ CHECKS = {
                 ref='3/C11'),
     'C10': dict(cat='model_checking', engine='E3+E2',
                 technique='own IR symbolic executor on the real index-representative / congruency kernels (arbitrary 64-bit indices, z3 + cvc5 integer encoding) and on the real StandardRefinery / MeshPart refinery / mesh permutation for 1- and 2-cell meshes of every shape with symbolic entity orientation, cell rotation and permutation (solver-guided forking, all-SAT per path); oracles from the definition of a conforming refinement',
-                text='Partial (stated): (1) IndexRepresentative gives congruent numberings of one edge/triangle/quadrilateral the same key and non-congruent ones different keys, CongruencySampler/Mapping codes describe the vertex and edge correspondence, for ALL distinct 64-bit indices. (2) For 1- and 2-cell meshes of quad/tria/hexa/tetra with one (thorough: two) sub-entities numbered in any congruent way and/or the last cell in any orientation preserving numbering, the refined mesh has the formula counts, consistent local faces, unique entities, 1/2 cells per facet, the Euler characteristic, and exactly the pattern children per coarse entity (parents identified by generic-position coordinates); refined parts map one-to-one onto children of their parents and commute with topology; custom mesh permutations keep mesh and part targets consistent. (3) E2 slice: one refinement step on one cell with symbolic vertex coordinates keeps the total volume, keeps coarse vertices, and every child positively oriented (general triangles, convex quadrilaterals, tetrahedra; affine hexahedra).',
-                note='Trusted: clang-14 IR, irsym executor (validated against ASan native build each run), z3 5.1.0, cvc5 1.0 (--solve-bv-as-int=sum, unsat answers only), FaceIndexMapping tables as definition. NOT covered: larger meshes and shipped mesh files, deeper refinement, volume of general trilinear hexahedra, BoundaryFactory, topology deduction from vertex lists (only its key function), MeshNode/charts/adapt, 3D cell parts with topology (documented as not implemented: loud abort).',
+                text='Partial (stated): (1) IndexRepresentative gives congruent numberings of one edge/triangle/quadrilateral the same key and non-congruent ones different keys, CongruencySampler/Mapping codes describe the vertex and edge correspondence, for ALL distinct 64-bit indices. (2) For 1- and 2-cell meshes of quad/tria/hexa/tetra with one (thorough: two) sub-entities numbered in any congruent way and/or the last cell in any orientation preserving numbering, the refined mesh has the formula counts, consistent local faces, unique entities, 1/2 cells per facet, the Euler characteristic, and exactly the pattern children per coarse entity (parents identified by generic-position coordinates); refined parts map one-to-one onto children of their parents and commute with topology; custom mesh permutations keep mesh and part targets consistent; BoundaryFactory == closure of the facets with exactly one adjacent cell, and the boundary part refined alongside == boundary computed on the refined mesh. (3) E2 slice: one refinement step on one cell with symbolic vertex coordinates keeps the total volume, keeps coarse vertices, and every child positively oriented (general triangles, convex quadrilaterals, tetrahedra; affine hexahedra).',
+                note='Trusted: clang-14 IR, irsym executor (validated against ASan native build each run), z3 5.1.0, cvc5 1.0 (--solve-bv-as-int=sum, unsat answers only), FaceIndexMapping tables as definition. NOT covered: larger meshes and shipped mesh files, deeper refinement, volume of general trilinear hexahedra, MaskedBoundaryFactory, topology deduction from vertex lists (only its key function), MeshNode/charts/adapt, 3D cell parts with topology (documented as not implemented: loud abort).',
                 ref='3/C10'),
     'C12': dict(cat='model_checking', engine='E3',
                 technique='own IR symbolic executor on the real RootMeshNode::extract_patch / refine_unique for every rank of a symbolic cell-to-rank assignment (solver-guided forking over all assignments without empty patch), on the real PatchHaloSplitter with fully symbolic 64-bit target indices (z3 oracle from the definition), and on Parti2Lvl with symbolic rank count',
